@@ -7,10 +7,14 @@
 (* over sub-grouping by identity.  `remove` keeps the first sub-group of every group and removes the       *)
 (* paths of the others.  Invariant: every content stored in a regular file before is still stored in a      *)
 (* regular file afterwards.  With SymlinksAcrossRoots = FALSE the combination -S -I with a link from one    *)
-(* root to a file of the other root is left out: that is exactly the open finding recorded for C02.         *)
+(* root to a file of the other root is left out: with it, and without the repair (Rescue = FALSE), TLC shows  *)
+(* the finding recorded for C02: the only regular file is removed and a dangling link is kept.  NoDangling:   *)
+(* a retained link still resolves.                                                                          *)
 EXTENDS Integers, FiniteSets, Sequences, TLC
 
-CONSTANTS SymlinksAcrossRoots
+CONSTANTS SymlinksAcrossRoots,
+          Rescue        \* the repair: a sub-group holding the file that a retained symbolic link resolves to is retained as well;
+                        \* FALSE = the code before the repair
 Paths == {"A/x", "A/y", "B/x", "B/y"}
 RootOf(p) == IF p \in {"A/x", "A/y"} THEN 1 ELSE 2
 Order == <<"A/x", "A/y", "B/x", "B/y">>          \* report order = path order, roots kept together
@@ -23,12 +27,19 @@ vars == <<node, flagS, flagI, flagH, phase>>
 
 Nodes == {[k |-> "none", i |-> 0, to |-> "-"]} \cup {[k |-> "file", i |-> i, to |-> "-"] : i \in Inodes}
          \cup {[k |-> "link", i |-> 0, to |-> q] : q \in Paths}
-Resolves(n, p) == IF n[p].k = "file" THEN p ELSE IF n[p].k = "link" /\ n[n[p].to].k = "file" THEN n[p].to ELSE "-"
+\* a link resolves in at most two hops (link -> link -> file); "-" = it does not resolve
+Resolves(n, p) == IF n[p].k = "file" THEN p
+                  ELSE IF n[p].k # "link" THEN "-"
+                  ELSE LET q == n[p].to IN
+                       IF n[q].k = "file" THEN q
+                       ELSE IF n[q].k = "link" /\ n[n[q].to].k = "file" THEN n[q].to ELSE "-"
+\* the paths a link passes through on its way to the file (without the link itself)
+Chain(n, p) == IF n[p].k # "link" THEN {} ELSE LET q == n[p].to IN IF n[q].k = "link" THEN {q, n[q].to} ELSE {q}
 Init == /\ node \in [Paths -> Nodes]
-        /\ \A p \in Paths : node[p].k = "link" => (node[p].to # p /\ node[node[p].to].k = "file")        \* links to regular files only
+        /\ \A p \in Paths : node[p].k = "link" => (node[p].to # p /\ Resolves(node, p) # "-")           \* links (chains of <= 2 links) to regular files
         /\ flagS \in BOOLEAN /\ flagI \in BOOLEAN /\ flagH \in BOOLEAN
         /\ ~(flagH /\ flagS)                                                                            \* the documented-dangerous pair
-        /\ (SymlinksAcrossRoots \/ ~(flagS /\ flagI) \/ \A p \in Paths : node[p].k = "link" => RootOf(p) = RootOf(node[p].to))
+        /\ (SymlinksAcrossRoots \/ ~(flagS /\ flagI) \/ \A p \in Paths : node[p].k = "link" => \A q \in Chain(node, p) : RootOf(p) = RootOf(q))
         /\ phase = "start"
 
 \* what `group` scans: regular files, and with -S also links to files
@@ -44,13 +55,25 @@ SubGroupsOf(S) == LET seq == InOrder(S)
 Classes == {{p \in Scanned : ContentOf(p) = c} : c \in {"c1", "c2"}}
 Reported == {g \in Classes : g # {} /\ Len(SubGroupsOf(g)) > 1}
 
-\* remove: keep the first sub-group of every reported group, remove the other paths
-Dropped == UNION {UNION {SubGroupsOf(g)[k] : k \in 2..Len(SubGroupsOf(g))} : g \in Reported}
+\* remove: keep the first sub-group of every reported group, remove the other paths - except, with Rescue, the sub-groups that
+\* hold the target of a retained link (computed as a least fixed point: rescued sub-groups retain their links too)
+RECURSIVE RetainedOf(_, _)
+RetainedOf(g, kept) ==
+    LET sgs == SubGroupsOf(g)
+        keptPaths == UNION {sgs[k] : k \in kept}
+        needed == UNION {Chain(node, q) : q \in {x \in keptPaths : node[x].k = "link"}}     \* every path the retained links pass through
+        more == {k \in (1..Len(sgs)) \ kept : sgs[k] \cap needed # {}}
+    IN IF more = {} THEN kept ELSE RetainedOf(g, kept \cup more)
+KeptOf(g) == IF Rescue THEN RetainedOf(g, {1}) ELSE {1}
+Dropped == UNION {UNION {SubGroupsOf(g)[k] : k \in (1..Len(SubGroupsOf(g))) \ KeptOf(g)} : g \in Reported}
 Remove == /\ phase = "start" /\ phase' = "done"
           /\ node' = [p \in Paths |-> IF p \in Dropped THEN [k |-> "none", i |-> 0, to |-> "-"] ELSE node[p]]
           /\ UNCHANGED <<flagS, flagI, flagH>>
 Spec == Init /\ [][Remove]_vars
 
 Stored(n) == {Content(n[p].i) : p \in {q \in Paths : n[q].k = "file"}}
+After == [p \in Paths |-> IF p \in Dropped THEN [k |-> "none", i |-> 0, to |-> "-"] ELSE node[p]]
+KeptPathsAll == UNION {UNION {SubGroupsOf(g)[k] : k \in KeptOf(g)} : g \in Reported}
+NoDangling == phase = "start" => \A p \in KeptPathsAll : node[p].k = "link" => Resolves(After, p) = Resolves(node, p)      \* retained reported links still resolve
 ContentKept == phase = "start" => Stored(node) \subseteq Stored([p \in Paths |-> IF p \in Dropped THEN [k |-> "none", i |-> 0, to |-> "-"] ELSE node[p]])
 =============================================================================
